@@ -463,6 +463,12 @@ class VOpaque(V):
         self.tag = tag
 
 
+class VUndef(V):
+    """spec mode only: the value of a partial operation outside its domain (e.g. None[0]).
+    Any predicate over it is an unconstrained boolean, so a clause that depends on it cannot be proved."""
+    t = None
+
+
 def typeof(v):
     if isinstance(v, (VInt, VReal, VBool, VStr, VNone)):
         return v.t
